@@ -80,7 +80,7 @@ fn synth_source(rng: &mut Rng) -> Source {
     let val = |rng: &mut Rng, k: &[u8], n: u32| values::make(Tag { key_id: kid(k), writer: 1, seq: n }, *rng.pick(&[30usize, 300, 4070, 6000]));
     let mut class: &'static str;
     let mut allow_legacy = false;
-    match rng.below(9) {
+    match rng.below(10) {
         0 => {
             class = "synth-duplicates";
             // same key twice, newest first or last on disk
@@ -189,6 +189,31 @@ fn synth_source(rng: &mut Rng) -> Source {
             rng.shuffle(&mut extents);
             let j = indep::encode_journal(rng.range(1, 9), &extents, 2);
             place(&mut image, 1, &j);
+        }
+        8 => {
+            // the file is LONGER than the device size its metadata records (an image copied into a larger
+            // preallocated file, a device grown by hand): the file length decides, as it does for every ordinary
+            // open, and records live in the extra space - a key that exists only there, the newest generation of a
+            // key whose older generation sits in the original area, and a record ending at the very last block
+            class = "synth-grown-file";
+            let k = b"moved".to_vec();
+            place(&mut image, 16, &indep::encode_record(version, &k, &val(rng, &k, 1), 100, 0, 16));
+            let k0 = b"stays".to_vec();
+            place(&mut image, 20, &indep::encode_record(version, &k0, &val(rng, &k0, 2), 101, 0, 20));
+            let extra = rng.range(8, 24);
+            image.resize(((blocks + extra) as usize) * BLOCK, 0);
+            let mut sector = blocks + rng.below(2);
+            let newer = indep::encode_record(version, &k, &val(rng, &k, 3), 200, 0, sector);
+            place(&mut image, sector, &newer);
+            sector += (newer.len() / BLOCK) as u64;
+            let k2 = b"tail".to_vec();
+            let r2 = indep::encode_record(version, &k2, &val(rng, &k2, 4), 102, 0, sector);
+            if sector + (r2.len() / BLOCK) as u64 <= blocks + extra - 1 {
+                place(&mut image, sector, &r2);
+            }
+            let k3 = b"last".to_vec();
+            let v3 = values::make(Tag { key_id: kid(&k3), writer: 1, seq: 5 }, 100);
+            place(&mut image, blocks + extra - 1, &indep::encode_record(version, &k3, &v3, 103, 0, blocks + extra - 1));
         }
         _ => {
             class = "synth-plain";
